@@ -287,3 +287,67 @@ func ZZC04Dup() {
 }
 
 func init() { vn.Register("process.ZZC04Dup", ZZC04Dup) }
+
+// ZZC13Counters (C13, condition 1): steps that Grits runs on different goroutines touch the
+// shared debug counters of one RuntimeEnvironment only through sync/atomic.
+func ZZC13Counters() {
+	w := zzNewStepWorld(NORMAL_ASYNC)
+	vn.Watch(&w.re.processCount)
+	vn.Watch(&w.re.deadProcessCount)
+	vn.Watch(&w.re.debugChannelCounter)
+	step := func(k int) func() {
+		p := NewProcess(&zzTProbe{}, []Name{w.pi}, nil, LINEAR, zzPos())
+		switch k {
+		case 0:
+			return func() { w.re.CreateFreshChannel("c") }
+		case 1:
+			return func() { p.SpawnThenTransition(w.re) }
+		case 2:
+			return func() { p.terminate(w.re) }
+		case 3:
+			return func() { _ = w.re.ProcessCount() }
+		default:
+			return func() { _ = w.re.DeadProcessCount() }
+		}
+	}
+	a, b := vn.Pick(5), vn.Pick(5)
+	vn.Par(step(a), step(b))
+	vn.Assert("C13.shared-counters-accessed-atomically", vn.RaceFree())
+	vn.Drain()
+}
+
+func init() { vn.Register("process.ZZC13Counters", ZZC13Counters) }
+
+// ZZC13CallCopies (C13, condition 2 / C04 call step): a call works on a private copy of the
+// function body; the definition shared by all callers is never mutated, and the copy has the
+// arguments substituted for the parameters (and `self` for an explicit provider).
+func ZZC13CallCopies() {
+	w := zzNewStepWorld(NORMAL_ASYNC)
+	explicit := vn.Pick(2) == 1
+	withSelf := vn.Pick(2) == 1
+	p := Name{Ident: "p"}
+	inner := NewClose(Name{IsSelf: true})
+	body := NewWait(p, inner)
+	fd := FunctionDefinition{FunctionName: "f", Parameters: []Name{p}, Body: body}
+	if explicit {
+		fd.UsesExplicitProvider = true
+		fd.ExplicitProvider = Name{Ident: "me", IsSelf: true}
+	}
+	*w.re.GlobalEnvironment.FunctionDefinitions = append(*w.re.GlobalEnvironment.FunctionDefinitions, fd)
+	args := []Name{w.ch[0]}
+	if withSelf {
+		args = []Name{{IsSelf: true}, w.ch[0]}
+	}
+	call := NewCall("f", args)
+	proc := NewProcess(call, []Name{w.pi}, nil, LINEAR, zzPos())
+	go call.Transition(proc, w.re)
+	vn.Drain() // the called body now waits on its argument
+	got, isWait := proc.Body.(*WaitForm)
+	vn.Assert("C04.step-call-becomes-body", isWait && got != body)
+	if isWait {
+		vn.Assert("C04.step-call-substitutes-arguments", got.to_c.Channel == w.ch[0].Channel)
+		vn.Assert("C13.call-copies-function-body", got != body && got.continuation_e != Form(inner) && body.to_c.Channel == nil && body.to_c.Ident == "p")
+	}
+}
+
+func init() { vn.Register("process.ZZC13CallCopies", ZZC13CallCopies) }
